@@ -99,6 +99,18 @@ pub fn check(l: &mut Local, t: i64, ns: u32, cnt: &mut u64) {
             }
             Err(e) => l.violation("gmtime: refused inside the range", format!("DateTime::from_timespec({}, {}, utc)", t, ns), format!("{}", c), format!("Err({:?})", e)),
         }
+        // the third gmtime entry point: the same instant given as a nanosecond count
+        let total = t as i128 * 1_000_000_000 + ns as i128;
+        *cnt += 1;
+        match (facade::utc_from_total_ns(total), &r1) {
+            (Ok(d), Ok(e)) => {
+                if d != *e || d.nanoseconds() != ns || d.week_day() != wd || d.year_day() != yd {
+                    l.violation("gmtime: from_total_nanoseconds differs from from_timespec for the same instant", format!("UtcDateTime::from_total_nanoseconds({})", total), facade::fmt_utc(e), facade::fmt_utc(&d));
+                }
+            }
+            (Err(e), Ok(_)) => l.violation("gmtime: refused inside the range", format!("UtcDateTime::from_total_nanoseconds({})", total), format!("{}", c), format!("Err({:?})", e)),
+            _ => {}
+        }
         if t == MIN || t == MAX {
             l.class("range_edge_ok");
         }
@@ -159,7 +171,7 @@ pub fn edge_instants() -> Vec<i64> {
 
 pub fn run(ctx: &Ctx) -> Report {
     let mut rep = Report::new("C01");
-    rep.rule = "cases = (instant, ns) pairs pushed through UtcDateTime::from_timespec and DateTime::from_timespec(.., utc) and compared field by field with M-cal (era-based calendar, odometer-validated). \
+    rep.rule = "cases = (instant, ns) pairs pushed through UtcDateTime::from_timespec, UtcDateTime::from_total_nanoseconds and DateTime::from_timespec(.., utc) and compared field by field with M-cal (era-based calendar, odometer-validated). \
                 Enumerated: every day of the 400-year cycle 2000-03-01..2400-02-29 x 7 seconds-of-day; every second of 8 chosen days; range / i64 edges; thorough adds every 400-year cycle of the i32 year range x 14 probe days and all days of 3 x 800..3600 years. \
                 Random: uniform in range and uniform over i64. distinct_nontrivial = distinct instants evaluated (enumerated ones are distinct by construction, random ones counted through a hash set)."
         .into();
